@@ -174,6 +174,7 @@ static inline std::vector<uint8_t> from_hex(const std::string& s) {
 
 // ---------------------------------------------------------------- event log (digest; optional trace)
 // No addresses, no clock, no PRNG draws in here.
+int sched_cur();
 struct EvLog {
   uint64_t digest = 0x1234567;
   uint64_t count = 0;
@@ -183,11 +184,10 @@ struct EvLog {
     digest = hash_comb(digest, hash_bytes(tag, strlen(tag)));
     digest = hash_comb(digest, a); digest = hash_comb(digest, b); digest = hash_comb(digest, c);
     count++;
-    if (trace) fprintf(stderr, "ev %llu %s %llu %llu %llu\n", (unsigned long long)count, tag, (unsigned long long)a, (unsigned long long)b, (unsigned long long)c);
+    if (trace) fprintf(stderr, "ev t%d %llu %s %llu %llu %llu\n", sched_cur(), (unsigned long long)count, tag, (unsigned long long)a, (unsigned long long)b, (unsigned long long)c);
   }
   void evs(const char* tag, const std::string& s) { ev(tag, hash_str(s), s.size()); }
 };
-int sched_cur();
 extern EvLog g_logs[];          // one per simulated task (0 = main); tasks never share a log
 #define g_log (g_logs[sched_cur()])
 extern bool g_task_mode;         // workload bodies run as tasks of a W4 plan (no allocator reset, per-task leak checks)
